@@ -809,3 +809,72 @@ func TestC20BothWays(t *testing.T) {
 }
 
 func init() { reg("C20.bothways", checkC20BothWays) }
+
+// ---- members reached through less common type shapes ------------------------------------------------------------
+
+type zRec struct{ Title string }
+
+func (r *zRec) Touch() string { return "touched-" + r.Title }
+func (r zRec) Upper() string  { return strings.ToUpper(r.Title) }
+
+type zHandle *zRec
+
+type zMeta struct{ Author string }
+
+func (m zMeta) Slug() string   { return "slug-" + m.Author }
+func (m *zMeta) PSlug() string { return "pslug-" + m.Author }
+
+type zPage struct {
+	*zMeta
+	Title string
+}
+
+type C20OddCase struct {
+	Which int `json:"which"`
+}
+
+var c20OddSets = []struct {
+	x    func() interface{}
+	src  string
+	want string
+}{
+	{func() interface{} { return map[fmt.Stringer]string{zStringer{"a"}: "v"} }, "[{{ x.a }}|{{ x['a'] }}|{{ x.a|default('dflt') }}]", "[||dflt]"},
+	{func() interface{} { return map[error]int{} }, "[{{ x.a }}|{{ x.Error }}]", "[|]"},
+	{func() interface{} { return zHandle(&zRec{"t"}) }, "[{{ x.Title }}|{{ x.Upper }}|{{ x.Touch }}]", "[t|T|touched-t]"},
+	{func() interface{} { return &zRec{"t"} }, "[{{ x.Title }}|{{ x.Upper }}|{{ x.Touch }}]", "[t|T|touched-t]"},
+	{func() interface{} { return zRec{"t"} }, "[{{ x.Title }}|{{ x.Upper }}|{{ x.Touch }}]", "[t|T|touched-t]"},
+	{func() interface{} { return zPage{Title: "p"} }, "[{{ x.Title }}|{{ x.Author }}|{{ x.Slug }}|{{ x.PSlug }}]", "[p|||]"},
+	{func() interface{} { return &zPage{Title: "p"} }, "[{{ x.Title }}|{{ x.Author }}|{{ x.Slug }}|{{ x.Slug|default('dflt') }}]", "[p|||dflt]"},
+	{func() interface{} { return &zPage{zMeta: &zMeta{"au"}, Title: "p"} }, "[{{ x.Title }}|{{ x.Author }}|{{ x.Slug }}|{{ x.PSlug }}]", "[p|au|slug-au|pslug-au]"},
+	{func() interface{} { return []interface{}{zPage{Title: "p"}, zHandle(&zRec{"h"})} }, "[{% for y in x %}{{ y.Slug }}{{ y.Touch }};{% endfor %}]", "[;touched-h;]"},
+}
+
+// checkC20Odd: the member, or an empty value when there is none — never a panic — for maps keyed by
+// an interface type other than interface{}, a named pointer type, and members promoted through an
+// embedded pointer that is nil.
+func checkC20Odd(c C20OddCase) error {
+	s := c20OddSets[c.Which%len(c20OddSets)]
+	r := render1(s.src, map[string]interface{}{"x": s.x()})
+	if r.Panic != "" {
+		return fmt.Errorf("%s with x = %T panics: %s", q(s.src), s.x(), r.Panic)
+	}
+	if r.Failed() || r.Out != s.want {
+		return fmt.Errorf("%s with x = %T renders %v, want %s", q(s.src), s.x(), r, q(s.want))
+	}
+	return nil
+}
+
+func TestC20Odd(t *testing.T) {
+	r := NewRec(t, "C20", "exhaustive: 9 values of less common type shapes (maps keyed by fmt.Stringer and by error, a named pointer type with a pointer-receiver method, the same struct as *T and T, a struct whose embedded pointer is nil or set: promoted fields, value and pointer methods, also in a list) with expected text written out; all cases non-trivial")
+	defer r.Flush()
+	r.SetExhaustive()
+	for i := range c20OddSets {
+		c := C20OddCase{Which: i}
+		r.Case(fmt.Sprint(i), true, c20OddSets[i].src)
+		if err := checkC20Odd(c); err != nil {
+			r.FailEnum(t, "C20.odd", c, err)
+		}
+	}
+}
+
+func init() { reg("C20.odd", checkC20Odd) }
